@@ -34,7 +34,7 @@ INF = float("inf")
 def cases(tier, seed):
     out = []
     counts = [0, 1, 2, 5, None, "step", "raise"]
-    n = 6 if tier == "quick" else 40
+    n = 6 if tier == "quick" else 600
     for c in counts:
         for block in (False, True):
             for i in range(n):
